@@ -2,6 +2,7 @@ import BppProofs.Props.C15
 import BppProofs.Lemmas.TreeValid
 import BppProofs.Lemmas.TreeHistory
 import BppProofs.Lemmas.TreeRefCheck
+import BppProofs.Lemmas.TreeRefSound
 /-!
 # C15 — the validity predicate of the tree container at full strength
 
@@ -16,7 +17,12 @@ at every moment and regardless of earlier queries and edits:
 * `isTree_answers`, `isTree_raises_iff` — it answers whenever the root is a node and raises exactly when it is not.
 * `history_consistent` — every history of the container keeps consistent tables.
 * `isValid_iff` — for every history, the (cached) `isValid()` answers true iff `IsTreeFrom` of the current graph.
-* `validRooted_refOf` — the reference tree the check reads off the edge table is defined on every valid rooted tree.
+* `validRooted_refOf`, `isRootedTree_iff_validRooted`, `isTree_eq_ref_rooted` — the reference decision of the check for
+  rooted trees (`isRootedTree`: in-degrees read off the edge table, every ancestor line ends at the root) accepts
+  exactly the valid rooted trees, so the reference tree `refOf` is defined exactly on them and, on a directed graph
+  whose root is a node, `isTree` answers what the reference answers.  (The reference decision for *unrooted* trees,
+  `isUnrootedTree`: connected and |E| = |V| - 1, is the textbook characterisation and is not connected to
+  `IsTreeFrom` by a theorem; there the check relies on `valid_answer` + `isTree_iff`.)
 -/
 namespace Bpp.C15
 open Bpp Bpp.Graph
@@ -73,6 +79,25 @@ on every valid rooted tree -/
 theorem validRooted_refOf (g : G) (hv : ValidRooted g) : refOf g = some (refRaw g) := by
   obtain ⟨P, hd, hr⟩ := hv.dtree
   exact hd.refOf hr
+
+/-- the reference test of the check accepts exactly the valid rooted trees -/
+theorem isRootedTree_iff_validRooted (g : G) (hc : Consistent g) : isRootedTree g = true ↔ ValidRooted g :=
+  isRootedTree_iff hc
+
+/-- on a directed graph whose root is a node, `isTree` answers what the reference decision answers -/
+theorem isTree_eq_ref_rooted (g : G) (hc : Consistent g) (hd : g.directed = true) (hr : g.hasNode g.root = true) :
+    T.isTree g = .ok (isTreeRef g) := by
+  obtain ⟨b, hb⟩ := T.isTree_total hc hr
+  rw [hb]
+  congr 1
+  unfold isTreeRef
+  rw [if_pos hd]
+  cases b with
+  | true => exact ((isRootedTree_iff hc).2 ⟨hc, hd, hb⟩).symm
+  | false =>
+    cases hrt : isRootedTree g with
+    | false => rfl
+    | true => have := ((isRootedTree_iff hc).1 hrt).tree; rw [hb] at this; cases this
 
 /-! non-vacuity: a valid rooted tree (0 -> 1 -> 3, 0 -> 2), a valid unrooted one, an invalid graph -/
 
